@@ -22,7 +22,7 @@ MUTANTS = [
     mut('c01-b22-term', ['C01'], (SD, ') - one_ov_w2 / dt\n', ') - one_ov_w2\n')),
     mut('c01-s-offset-row-shift', ['C01', 'C03'], (SD, "    if periods[0] == 0:\n        s = 1\n    else:\n        s = 0\n    w = 6.2831853", "    if periods[0] == 0:\n        s = 1\n    else:\n        s = 0\n    periods = np.sort(periods)\n    w = 6.2831853")),
     # ---- C11 -----------------------------------------------------------------------------------------------------
-    mut('c11-sign-test-le', ['C11'], (PC, 'peak_indices = np.where(diff[1:] * diff[:-1] < 0)[0]', 'peak_indices = np.where(diff[1:] * diff[:-1] <= 0)[0]')),
+    mut('c11-sign-test-le', ['C11'], (PC, 'peak_indices = np.where(np.sign(diff[1:]) * np.sign(diff[:-1]) < 0)[0]', 'peak_indices = np.where(np.sign(diff[1:]) * np.sign(diff[:-1]) <= 0)[0]')),
     mut('c11-drop-last-index', ['C11'], (PC, "    peak_indices = np.insert(peak_indices, len(peak_indices), len(values) - 1)\n\n    return peak_indices", "    return peak_indices")),
     mut('c11-max-min-parity', ['C11'], (PC, "        if first_move > 0:\n            return peak_full_indices[1::2]", "        if first_move > 0:\n            return peak_full_indices[::2]")),
     mut('c11-svalue-sign', ['C11'], (PC, 'svalue = -0.25', 'svalue = 0.25')),
@@ -33,7 +33,7 @@ MUTANTS = [
     mut('c12-sign-switch-le', ['C12'], (PC, 'through_zero_indices = np.where(sign_switch < 0)[0]', 'through_zero_indices = np.where(sign_switch <= 0)[0]')),
     mut('c12-adjacent-ge', ['C12'], (PC, 'no_adj_is = np.where(diff_is > 1)[0]', 'no_adj_is = np.where(diff_is >= 1)[0]')),
     mut('c12-missing-index0', ['C12'], (PC, "    if all_zc_indices[0] != 0:\n        all_zc_indices = np.insert(all_zc_indices, 0, 0)  # slow\n", "")),
-    mut('c12-halfcycle-strict', ['C12'], (PC, 'if adj_val * last <= 0:', 'if adj_val * last < 0:')),
+    mut('c12-halfcycle-strict', ['C12'], (PC, 'if np.sign(adj_val) * np.sign(last) <= 0:', 'if np.sign(adj_val) * np.sign(last) < 0:')),
     mut('c12-argmax-no-abs', ['C12'], (PC, "            i_max_set = np.argmax(np.abs(peak_values_set))\n            new_peak_indices.append(peak_indices_set[i_max_set])\n\n            last", "            i_max_set = np.argmax(peak_values_set)\n            new_peak_indices.append(peak_indices_set[i_max_set])\n\n            last")),
     mut('c12-drop-add-last', ['C12'], (PC, "    if len(peak_values_set):  # add last\n        i_max_set = np.argmax(np.abs(peak_values_set))\n        new_peak_indices.append(peak_indices_set[i_max_set])\n", "    if False:\n        pass\n")),
     mut('c12-F9-regress', ['C12'], (PC, 'peak_values_set = [peak_values[0]]', 'peak_values_set = [0]')),
@@ -44,7 +44,7 @@ CONTROLS = [
     mut('ctl-2pi-exact', ['C01', 'C02', 'C03'], (SD, 'w = 6.2831853 / periods[s:]', 'w = 2 * np.pi / periods[s:]'), control=True),
     mut('ctl-transposed-state', ['C01'], (SD, "    acc = -np.array(acc, dtype=float)\n", "    acc = -np.array(acc, dtype=float, copy=True)\n"), control=True),
     mut('ctl-flatnonzero', ['C11', 'C12', 'C13'], (PC, 'non_zero_indices = np.where(diff_values != 0)[0]', 'non_zero_indices = np.flatnonzero(diff_values != 0)'), control=True),
-    mut('ctl-peaks-argwhere', ['C11'], (PC, 'peak_indices = np.where(diff[1:] * diff[:-1] < 0)[0]', 'peak_indices = np.flatnonzero((diff[1:] * diff[:-1]) < 0)'), control=True),
+    mut('ctl-peaks-argwhere', ['C11'], (PC, 'peak_indices = np.where(np.sign(diff[1:]) * np.sign(diff[:-1]) < 0)[0]', 'peak_indices = np.flatnonzero((np.sign(diff[1:]) * np.sign(diff[:-1])) < 0)'), control=True),
 ]
 
 MUTANTS += [
@@ -159,4 +159,11 @@ MUTANTS += [
         "def resample_to_approx_dt(asig, target_dt=0.01, even=True):\n    if asig.dt == target_dt and not (even and asig.npts % 2):\n        return asig")),
     mut('c02-objrefine-trim-by-truncated-factor', ['C02', 'C03'], (SG, "            values_interp, dt_interp = interp_array_to_approx_dt(self.values, self.dt, target_dt, even=False)\n",
         "            values_interp, dt_interp = interp_array_to_approx_dt(self.values, self.dt, target_dt, even=False)\n            values_interp = values_interp[:int(self.dt / dt_interp) * (self.npts - 1) + 1]\n")),
+]
+
+# ---- regressions of F39 (sign tests through products that under/overflow) ------------------------------------------------------
+MUTANTS += [
+    mut('c11-F39-regress', ['C11'], (PC, 'peak_indices = np.where(np.sign(diff[1:]) * np.sign(diff[:-1]) < 0)[0]', 'peak_indices = np.where(diff[1:] * diff[:-1] < 0)[0]')),
+    mut('c12-F39-regress-crossings', ['C12'], (PC, 'sign_switch = np.sign(values[1:]) * np.sign(values[:-1])', 'sign_switch = values[1:] * values[:-1]')),
+    mut('c12-F39-regress-switched', ['C12'], (PC, 'if np.sign(adj_val) * np.sign(last) <= 0:', 'if adj_val * last <= 0:')),
 ]
